@@ -117,8 +117,7 @@ class Run(object):
         self.undecided.append(dict(name=obligation, unit=replay.get('unit'), detail='counter-model does not reproduce on the real code: %r' % (replay.get('call'),)))
 
     def standin_covers(self, pattern):
-        self.covered_by_standin.append(pattern)
-        self.level_proof = False
+        self.covered_by_standin.append(pattern)    # level drops to 'other' only if something undecided is actually covered
 
     # -- finish ----------------------------------------------------------------
     def finish(self):
